@@ -338,6 +338,37 @@ func c16EC(c *fw.Case, typ string, x, y *big.Int) {
 			add("crv-case-variant+y-leading-zero-dropped", func(m map[string]interface{}) { m["crv"] = cv; m["y"] = oracle.B64(yb[1:]) })
 		}
 	}
+	if typ == gen.Secp256k1 {
+		// a private-key member next to an off-curve point does not make the point acceptable
+		fb := append([]byte{}, xb...)
+		fb[len(fb)-1] ^= 1
+		if !onCurve(typ, new(big.Int).SetBytes(fb), new(big.Int).SetBytes(yb)) {
+			add("x-off-curve-with-d-member", func(m map[string]interface{}) {
+				m["x"] = oracle.B64(fb)
+				m["d"] = oracle.B64(r.Bytes(32))
+			})
+		}
+		// a JWK whose labels differ from the registered names by letter case: if the decoder takes it, what it writes back carries the
+		// registered names (kty EC, crv secp256k1) and the same coordinates
+		for _, lab := range [][2]string{{"ec", "secp256k1"}, {"EC", "SECP256K1"}, {"Ec", "Secp256K1"}} {
+			text, _ := json.Marshal(map[string]interface{}{"kty": lab[0], "crv": lab[1], "x": oracle.B64(xb), "y": oracle.B64(yb)})
+			var v jwsutil.JWK
+			c.Count("label-case-variants", 1)
+			if err := v.UnmarshalJSON(text); err != nil {
+				c.Count("label-case-variant-refused", 1)
+				continue
+			}
+			out, err := v.MarshalJSON()
+			var back map[string]interface{}
+			if err == nil {
+				err = json.Unmarshal(out, &back)
+			}
+			if err != nil || back["kty"] != "EC" || back["crv"] != gen.Secp256k1 || back["x"] != oracle.B64(xb) || back["y"] != oracle.B64(yb) {
+				c.Failf("reencoded-jwk-labels", map[string]interface{}{"decoded_text": string(text), "reencoded": string(out), "err": fmt.Sprint(err)},
+					"a secp256k1 JWK decoded from labels %s/%s is written back as %s (expected kty EC, crv secp256k1, same coordinates)", lab[0], lab[1], out)
+			}
+		}
+	}
 	for _, coord := range []string{"x", "y"} {
 		coord := coord
 		src := xb
